@@ -14,7 +14,10 @@ import (
 	api "k8s.io/api/core/v1"
 	"sigs.k8s.io/controller-runtime/pkg/client"
 
+	"github.com/jcmoraisjr/haproxy-ingress/pkg/converters/gateway"
 	hatypes "github.com/jcmoraisjr/haproxy-ingress/pkg/haproxy/types"
+	gatewayv1 "sigs.k8s.io/gateway-api/apis/v1"
+	gatewayv1alpha2 "sigs.k8s.io/gateway-api/apis/v1alpha2"
 
 	"verif/harness/lib/c06"
 	"verif/harness/lib/cfgnorm"
@@ -280,7 +283,62 @@ func genTcp(rng *rand.Rand, i int) (string, interface{}, bool, error) {
 		map[string]interface{}{"data": cm.Data, "owner_by_port": jq}, dup, nil
 }
 
+// ---------------------------------------------------------------- CRouteSort
+
+var routeIdentities = append([][2]string{{"apps", "web"}, {"billing", "api"}, {"infra", "zz"}, {"z", "a"}, {"b", "a"}, {"apps", "api"}, {"billing", "web"}}, advIdentities...)
+
+func genRouteSort(rng *rand.Rand, tcp bool) (string, interface{}, bool) {
+	n := 2 + rng.Intn(7)
+	seen := map[string]bool{}
+	type ident struct {
+		ns, name string
+		stamp    int
+	}
+	var ids []ident
+	for try := 0; len(ids) < n && try < 200; try++ {
+		id := routeIdentities[rng.Intn(len(routeIdentities))]
+		if seen[id[0]+"/"+id[1]] {
+			continue
+		}
+		seen[id[0]+"/"+id[1]] = true
+		ids = append(ids, ident{id[0], id[1], []int{15, 15, 15, 15, 20, 10}[rng.Intn(6)]})
+	}
+	var in, obs []string
+	var jin [][3]interface{}
+	for _, id := range ids {
+		in = append(in, hx.Tuple(hx.Str(id.ns), hx.Str(id.name), hx.Z(world.Stamp(id.stamp).Unix())))
+		jin = append(jin, [3]interface{}{id.ns, id.name, world.Stamp(id.stamp).Unix()})
+	}
+	if tcp {
+		routes := make([]*gatewayv1alpha2.TCPRoute, len(ids))
+		for i, id := range ids {
+			routes[i] = &gatewayv1alpha2.TCPRoute{}
+			routes[i].Namespace, routes[i].Name, routes[i].CreationTimestamp = id.ns, id.name, world.Stamp(id.stamp)
+		}
+		gateway.VerifSortTCPRoutes(routes)
+		for _, r := range routes {
+			obs = append(obs, r.Namespace+"/"+r.Name)
+		}
+	} else {
+		routes := make([]*gatewayv1.HTTPRoute, len(ids))
+		for i, id := range ids {
+			routes[i] = &gatewayv1.HTTPRoute{}
+			routes[i].Namespace, routes[i].Name, routes[i].CreationTimestamp = id.ns, id.name, world.Stamp(id.stamp)
+		}
+		gateway.VerifSortHTTPRoutes(routes)
+		for _, r := range routes {
+			obs = append(obs, r.Namespace+"/"+r.Name)
+		}
+	}
+	return fmt.Sprintf("CRouteSort @ID@ %s %s %s", hx.Bool(tcp), hx.List(in), coqStrs(obs)),
+		map[string]interface{}{"tcp": tcp, "routes": jin, "observed": obs}, true
+}
+
 func correspondence2(o *hx.Opts, rng *rand.Rand, res *hx.Result, add func(kind, term string, js interface{}, nontrivial bool)) {
+	for i, n := 0, o.Count(160, 3000); i < n; i++ {
+		t, js, nt := genRouteSort(rng, i%2 == 1)
+		add("routesort", t, js, nt)
+	}
 	for i, n := 0, o.Count(200, 2000); i < n; i++ {
 		t, js, nt := genAlloc(rng)
 		add("alloc", t, js, nt)
